@@ -27,6 +27,13 @@ impl<T> VxIter<T> {
     #[verifier::external_body]
     pub fn into_iter(self) -> (r: VxIter<T>) ensures r.items() == self.items() { unimplemented!() }
 }
+impl<'a, T: Clone> VxIter<&'a T> {
+    /// `Iterator::cloned` (assumes `T::clone` returns an equal value)
+    #[verifier::external_body]
+    pub fn cloned(self) -> (r: VxIter<T>)
+        ensures r.items().len() == self.items().len(), forall|i: int| #![trigger r.items()[i]] #![trigger self.items()[i]] 0 <= i < r.items().len() ==> r.items()[i] == *self.items()[i]
+    { unimplemented!() }
+}
 /// `Vec::into_iter()` in a position whose result flows into a model iterator
 pub trait VxVecExt<T> { fn vx_into_iter(self) -> VxIter<T>; }
 #[verifier::external_body]
